@@ -33,6 +33,12 @@ var sizes []int
 //go:norace
 func Sizes() []int { return sizes }
 
+// Zero returns zero values of the map's key and value types (used to declare the loop variables of an
+// instrumented range loop once, outside the loop).
+//
+//go:norace
+func Zero[K comparable, V any](m map[K]V) (k K, v V) { return }
+
 //go:norace
 func Keys[K comparable, V any](m map[K]V) []K {
 	keys := make([]K, 0, len(m))
